@@ -105,6 +105,37 @@ def comment_after_terminator(text):
     return False
 
 
+def name_with_line_break(text):
+    """a bracket- or backtick-quoted identifier (one Name / Symbol token) that contains a line break: the serializer
+    protects only '...' and "..." regions when it normalises line ends and right-strips lines"""
+    T = _T()
+    return any((t in T.Name or t in T.String.Symbol) and ('\n' in v or '\r' in v) for t, v in _toks(text))
+
+
+def only_comments_and_blanks(text):
+    T = _T()
+    toks = _toks(text)
+    return bool(toks) and all(t in T.Comment or t in T.Whitespace for t, _ in toks) and any(t in T.Comment for t, _ in toks)
+
+
+def separator_stable(text):
+    """inserting one blank between two adjacent tokens of the input never changes how the input is lexed.  Scripts of
+    the verification grammar are separator-stable (tokens are separated, or are punctuation that lexes alone); token
+    soups such as `like:p` (-> like, :, p but `like :p` -> like, :p) are not, and for them a layout filter that adds
+    whitespace legitimately changes the token sequence."""
+    T = _T()
+    toks = _toks(text)
+    vals = [v for _, v in toks]
+    sig = [v for t, v in toks if t not in T.Whitespace]
+    for i in range(len(toks) - 1):
+        if toks[i][0] in T.Whitespace or toks[i + 1][0] in T.Whitespace:
+            continue
+        t2 = ''.join(vals[:i + 1]) + ' ' + ''.join(vals[i + 1:])
+        if [v for t, v in _toks(t2) if t not in T.Whitespace] != sig:
+            return False
+    return True
+
+
 def _opts(case):
     return dict(case[1]) if len(case) > 1 and isinstance(case[1], tuple) else {}
 
@@ -128,6 +159,8 @@ def classify_C06(case, failure):
         return 'C06:bounded:GO-terminator-followed-by-more-tokens'
     if what in ('fused-or-split', 'changed') and two_assignments(text):
         return 'C06:bounded:two-assignments-in-one-statement'
+    if what in ('fused-or-split', 'changed') and name_with_line_break(text):
+        return 'C06:bounded:line-break-inside-bracket-or-backtick-name'
     return None
 
 
@@ -142,8 +175,11 @@ def classify_C08(case, failure):
         return 'C08:bounded:hint-grouped-with-preceding-comment'
     if what.startswith('strip_comments:fused-or-split') and comment_between_non_blanks(text):
         return 'C08:bounded:comment-glued-to-tokens-at-a-group-edge'
+    if what.endswith(':name-altered') and name_with_line_break(text):
+        return 'C08:bounded:line-break-inside-bracket-or-backtick-name'
     if what.startswith('strip_comments:not-idempotent') and (comment_after_terminator(text)
-                                                              or comment_between_non_blanks(text)):
+                                                              or comment_between_non_blanks(text)
+                                                              or only_comments_and_blanks(text)):
         return 'C08:bounded:strip-comments-second-pass-whitespace'
     if 'not-idempotent' in what and what.split(':')[0] in ('keyword_case', 'identifier_case') \
             and keyword_glued_to_paren_or_dot(text):
@@ -177,14 +213,55 @@ def _flat(x):
         yield x
 
 
+_C13_OPS = ('+', '-', '*', '/', '||', '%')
+_C13_CMP = ('=', '<>', '!=', '<', '>', '<=', '>=', 'LIKE', 'NOT LIKE', 'ILIKE')
+_C13_TL = ('DATE', 'INTERVAL', 'TIMESTAMP')
+_C13_LISTBREAK = {'paren', 'typed-literal', 'case-operand', 'paren-operand'}
+
+
+def _c13_item_class(it):
+    """input class of one written list item / argument (lexeme tuple) for the open C13 findings"""
+    up = [str(x).upper() for x in it]
+    aliased_as = len(up) >= 3 and up[-2] == 'AS'
+    if up[0] == '(' and not aliased_as and up[-1] == ')':
+        return 'paren'                      # un-aliased parenthesised expression or subquery
+    if any(w in _C13_TL for w in up) and not (aliased_as and up[0] in _C13_TL):
+        return 'typed-literal'
+    if 'CASE' in up and any(o in up for o in _C13_OPS):
+        return 'case-operand'               # an operation with a CASE operand
+    if any(o in up for o in _C13_OPS):
+        for i, w in enumerate(up):
+            if w == '(' and (i == 0 or up[i - 1] in _C13_OPS + (',', '(')):
+                return 'paren-operand'      # an operation with a parenthesised operand
+    if len(up) >= 2 and up[-2].startswith("'") and up[-1] not in _C13_OPS and up[-1] not in (')', ','):
+        return 'string-literal-bare-alias'  # 'text' alias   (alias without AS after a string literal)
+    return None
+
+
+def _c13_single_non_identifier(arg):
+    up = [str(x).upper() for x in arg]
+    return (any(o in up for o in _C13_OPS + _C13_CMP) or 'CASE' in up or up[0] == '(' or up in (['NULL'], ['*']))
+
+
 def classify_C13(case, failure):
     what = failure.get('what', '')
     kind = case[0]
     words = [str(w).upper() for w in _flat(case[1:])]
-    if what == 'function-parameters' and kind == 'func':
-        return 'C13:bounded:get_parameters-single-non-identifier-argument'
-    if what == 'idlist-missing' and kind in ('idlist', 'func'):
-        return 'C13:bounded:list-item-parenthesis-typed-literal-or-case-breaks-the-list'
+    if kind in ('idlist', 'func'):
+        items = case[2] if kind == 'idlist' else case[3]
+        classes = {_c13_item_class(a) for a in items} - {None}
+        if what == 'function-parameters' and kind == 'func':
+            if len(items) == 1 and _c13_single_non_identifier(items[0]):
+                return 'C13:bounded:get_parameters-single-non-identifier-argument'
+            if len(items) > 1 and classes & _C13_LISTBREAK:
+                return 'C13:bounded:list-item-parenthesis-typed-literal-or-case-breaks-the-list'
+            return None
+        if what == 'idlist-missing':
+            if classes & _C13_LISTBREAK:
+                return 'C13:bounded:list-item-parenthesis-typed-literal-or-case-breaks-the-list'
+            if 'string-literal-bare-alias' in classes:
+                return 'C13:bounded:string-literal-with-bare-alias-splits-the-list'
+            return None
     if what == 'comparison-missing' and kind == 'cmp' and ('CASE' in words or '(' in words):
         return 'C13:bounded:comparison-with-case-or-parenthesised-operand'
     return None
